@@ -119,15 +119,17 @@ Record tables := {
   t_sym_dir : list (string * (bool * bool));
   t_asym_rt : list (string * bool);
   t_supported : list string;
+  t_sess_cert : bool;                        (* CreateSessionResponse carries the server certificate unconditionally *)
   t_sess_nonce_server : Z;
   t_sess_nonce_client : Z }.
 
-(* c_kb: the client's key size in bytes, c_skb: the server's *)
-Record config := { c_pol : string; c_mode : Z; c_kb : Z; c_skb : Z; c_tok : tok }.
+(* c_pol/c_mode: the endpoint the client selects; c_kb: the client's key size in bytes (0 = no certificate),
+   c_skb: the server's; c_extra: further pairs the server enables (listed before the selected one) *)
+Record config := { c_pol : string; c_mode : Z; c_kb : Z; c_skb : Z; c_tok : tok; c_extra : list secpair }.
 
 (* the server of a run: None/None plus exactly the pair under test; anonymous and username enabled *)
 Definition server_pairs (c : config) : list secpair :=
-  {| sc_pol := "None"; sc_mode := 1 |} ::
+  {| sc_pol := "None"; sc_mode := 1 |} :: c_extra c ++
   (if String.eqb (c_pol c) "None" then [] else [{| sc_pol := c_pol c; sc_mode := c_mode c |}]).
 Definition server_auth : list tok := [TAnon; TUser].
 
@@ -188,7 +190,8 @@ Definition user_token_ok (T : tables) (ep : endpoint) (c : config) : bool :=
   | TUser =>
       let u := auth_uri ep c in
       if String.eqb u "None" then true      (* password sent as is *)
-      else existsb (String.eqb u) (t_supported T) && asym_accept (t_rows T) u (c_kb c) (c_skb c) &&
+      else t_sess_cert T &&                  (* the password is encrypted for the certificate of the CreateSessionResponse *)
+           existsb (String.eqb u) (t_supported T) && asym_accept (t_rows T) u (c_kb c) (c_skb c) &&
            (0 <? asym_plain (t_rows T) u (c_kb c) (c_skb c)) &&
            match assoc u (t_asym_rt T) with Some b => b | None => false end
   end.
@@ -225,10 +228,25 @@ Definition configs_of_policy (T : tables) (pol : string) : list config :=
   flat_map (fun m =>
     if 0 <? level_of (t_levels T) pol m then
       flat_map (fun kp =>
-        flat_map (fun t => let c := {| c_pol := pol; c_mode := m; c_kb := fst kp; c_skb := snd kp; c_tok := t |} in
+        flat_map (fun t => let c := {| c_pol := pol; c_mode := m; c_kb := fst kp; c_skb := snd kp; c_tok := t; c_extra := [] |} in
                            if token_advertised T c then [c] else [])
                  [TAnon; TUser])
         (key_pairs T pol m)
     else []) modes.
 
-Definition all_configs (T : tables) : list config := flat_map (configs_of_policy T) (t_supported T).
+(* the None/None endpoint of a server that ALSO enables a secured pair (xpol, xm) and holds a key of skb bytes: it
+   advertises the user-name token policy of that pair there too; the client needs no certificate of its own *)
+Definition none_cells_of (T : tables) (xpol : string) : list config :=
+  if String.eqb xpol "None" then [] else
+  flat_map (fun xm =>
+    if 0 <? level_of (t_levels T) xpol xm then
+      flat_map (fun skb =>
+        flat_map (fun t => let c := {| c_pol := "None"; c_mode := 1; c_kb := 0; c_skb := skb; c_tok := t;
+                                       c_extra := [{| sc_pol := xpol; sc_mode := xm |}] |} in
+                           if token_advertised T c then [c] else [])
+                 [TAnon; TUser])
+        (filter (fun skb => asym_accept (t_rows T) xpol 0 skb) key_sizes)
+    else []) modes.
+
+Definition all_configs (T : tables) : list config :=
+  flat_map (configs_of_policy T) (t_supported T) ++ flat_map (none_cells_of T) (t_supported T).
